@@ -30,7 +30,7 @@ class CoverpointBinSingleWildcardModel(CoverpointBinModelBase):
         # Process each value/mask pair
         self.hit_bin_idx = -1        
         for s in self.wildcard_binspec.specs:
-            if (val & s[1]) == s[0]:
+            if (val & s[1]) == (s[0] & s[1]):
                 self.hit_bin_idx = 0
                 self.cp.coverage_ev(
                     self.bin_idx_base,
